@@ -969,7 +969,17 @@ func checkOrdinalArgs(c *Ctx, r *Rec, rule string, info *types.Info, fd *ast.Fun
 					continue
 				}
 				key := objKey(v)
+				// loops that step the ordinal are assumed to run at least once (a
+				// zero-trip path through such a loop is not taken as a witness)
+				stepping := map[ast.Expr]bool{}
+				inspectNoLit(body, func(y ast.Node) bool {
+					if fs, ok := y.(*ast.ForStmt); ok && fs.Cond != nil && assignedIn(info, fs.Body, key, env) && !containsNode(fs, call) {
+						stepping[fs.Cond] = true
+					}
+					return true
+				})
 				reaches, _ := g.exists(pathQuery{
+					edgeOK: func(cond ast.Expr, pol bool) bool { return pol || !stepping[cond] },
 					from: ipt,
 					stop: func(n ast.Node) bool {
 						if containsNode(n, call) {
